@@ -106,8 +106,11 @@ func BodyOp(r *rand.Rand, p Profile) engine.Op {
 		return engine.Op{Kind: "setpart", P: pg, Seed: seed, Len: r.Intn(1 << 12)}
 	case x < 62:
 		return engine.Op{Kind: "loadmark", P: pg, Seed: seed, Off: r.Intn(1 << 12), Len: r.Intn(1 << 12)}
-	case x < 72:
+	case x < 68:
 		return engine.Op{Kind: "read", P: pg}
+	case x < 72:
+		// Load without MarkDirty: the page gets a write buffer but stays clean
+		return engine.Op{Kind: "load", P: pg}
 	case x < 84:
 		return engine.Op{Kind: "free", P: pg}
 	case x < 89:
